@@ -42,4 +42,5 @@ Inductive pstmt :=
 (* main loop body *)
 Inductive litem :=
 | IFor (body : list lstmt)           (* for idx in range(n): body *)
+| IForOrd (body : list lstmt)        (* rng = np.random.permutation(range(n)); for idx in rng: body *)
 | IStmt (s : lstmt).
